@@ -174,6 +174,35 @@ theorem C31_pure (h : Heap) (a b : RConfig) :
     ∀ i, i < h.length → (mergeH table h a b).1[i]? = h[i]? :=
   (mergeHLoop_keeps table C31_table_no_inplace h a b []).2
 
+/-- **The heap view and the value view agree**: over any heap on which the inputs are
+well-formed (every map/slice field is nil or the address of an object of the right sort, every
+other field a scalar), what the heap-level `MergeConfig` returns denotes exactly
+`merge table` of what the inputs denote.  So `C31_pure` is about the same call whose result
+`C31_fieldwise` / `C31_assoc` / `C31_fold` describe. -/
+theorem C31_heap_value_agree (h : Heap) (a b : RConfig)
+    (hin : ∀ fs ∈ table, RefOK h fs.kind (rget a fs.name) ∧ RefOK h fs.kind (rget b fs.name)) :
+    deref table (mergeH table h a b).1 (mergeH table h a b).2 =
+      merge table (deref table h a) (deref table h b) :=
+  mergeH_deref table C31_table_names_nodup h a b
+    (fun fs hfs => ⟨C31_table_compat fs hfs, C31_table_no_inplace fs hfs, (hin fs hfs).1, (hin fs hfs).2⟩)
+
+/-- the all-zero reference-level configuration (nil maps and slices) -/
+def rzero : RConfig := table.map fun fs =>
+  (fs.name, match fs.kind with
+    | .tags | .list => .ref none
+    | k => .scalar (zeroVal k))
+
+/-- non-vacuity: well-formed inputs exist over any heap -/
+example (h : Heap) : ∀ fs ∈ table, RefOK h fs.kind (rget rzero fs.name) ∧ RefOK h fs.kind (rget rzero fs.name) := by
+  intro fs hfs
+  have : rget rzero fs.name = match fs.kind with
+      | .tags | .list => .ref none
+      | k => .scalar (zeroVal k) := by
+    unfold rget rzero
+    rw [alookup_map_rspec _ table C31_table_names_nodup fs hfs]; rfl
+  rw [this]
+  cases fs.kind <;> simp [RefOK]
+
 /-- Regression witness: with the pre-repair statement shape (`tagsInPlace`) the call writes
 `b`'s tags into `a`'s map. -/
 theorem C31_pure_inplace_counterexample :
